@@ -1556,7 +1556,8 @@ pub fn codegen(
                         let errors = ctx
                             .undefined
                             .iter()
-                            .sorted_by_key(|k| k.id.to_string())
+                            // (by name and then by position: the set itself is in hash order)
+                            .sorted_by_key(|k| (k.id.to_string(), k.span))
                             .map(|item| {
                                 let mut diag = Diagnostic::error()
                                     .with_message(format!("unknown identifier: {}", item.id));
